@@ -80,6 +80,7 @@ PRECOND = {
     'core::cell::RefCell::<T>::replace': 'borrow', 'core::cell::RefCell::<T>::swap': 'borrow',
     'core::time::Duration::from_secs_f64': 'overflow-fn', 'std::time::Instant::duration_since': 'overflow-fn',
     "core::fmt::rt::Argument::<'_>::from_usize": 'fmt-width',      # a run-time width / precision above u16::MAX panics while formatting
+    'z85::decode': 'z85-text',      # z85 3.0 panics (256u32.pow(4 - diff), diff > 4) on a tail chunk that starts with more than three '#'
     'arcstr::arc_str::ArcStr::substr': 'str-index', 'arcstr::substr::Substr::substr': 'str-index',
     '<rpds::vector::Vector<T, P> as core::ops::index::Index<usize>>::index': 'index',
     '<rpds::vector::Vector<T, P> as core::ops::index::IndexMut<usize>>::index_mut': 'index',
@@ -365,6 +366,12 @@ def def_facts(f, z, x, k):
         elif n.endswith('len_utf8'):
             z.add(k, '0', 1)
             z.add('0', k, -4)
+        elif n.endswith('<impl str>::len') and x[2]:
+            # a trimmed / stripped string is a sub-slice of the original: it is not longer
+            inner = strip(unwrap_value(strip(x[2][0])))
+            if isinstance(inner, tuple) and inner[0] == 'call' and re.search(r'<impl str>::(trim\w*|strip_\w+)$', inner[1]) and inner[2]:
+                outer_len = ('call', n, (inner[2][0],), x[3])
+                z.add(atom(outer_len), k, 0)
         if any(n.endswith(s_) or n == s_ for s_ in LEN_LIKE_CALLS):
             z.nonneg(k)
     elif tag == 'cast':
@@ -883,6 +890,13 @@ def discharge_call(fx, f, s, tainted_params):
             r = strip(ops[-1])
             if isinstance(r, tuple) and r[0] == 'const' and r[1].get('v', 0) > 0:
                 return 'D-CONST', 'chunk size %s' % r[1]['v']
+            return None
+        if k2 == 'z85-text':
+            # the text must have been vetted: some branch every path to the call takes tests a value computed from that very text
+            txt = expr_str(strip(unwrap_value(strip(ops[0]))), -8)
+            for (b2, e, side) in edge_guards(f, s['bb']):
+                if txt and txt[:40] in expr_str(e, -30):
+                    return 'D-GUARD', 'the text is tested (%s) before it is handed to z85::decode' % expr_str(e, -6)[:60]
             return None
         if k2 == 'fmt-width':
             from ..core import simplify
